@@ -475,7 +475,7 @@ int eng_hist_main(int argc, char **argv) {
   bool hit = false;
   if (props.empty() || props.find("C15") != std::string::npos) {
     ChildRes cr = run_child([&](Report &r) { c15_contract(r); }, rep, 300);
-    if (!cr.ok) rep.viol("{\"property\":\"C15\",\"kind\":\"crash\",\"engine\":\"hist\",\"case\":\"contract\",\"grammar\":\"\",\"detail\":" + jstr(child_failure_text(cr) + "; stderr: " + cr.err_tail.substr(0, 1500)) + "}");
+    if (!cr.ok) rep.viol("{\"property\":" + jstr(a.has("crash-prop") ? g_crash_prop : std::string("C15")) + ",\"kind\":\"crash\",\"engine\":\"hist\",\"case\":\"contract\",\"grammar\":\"\",\"detail\":" + jstr(child_failure_text(cr) + "; stderr: " + cr.err_tail.substr(0, 1500)) + "}");
   }
   // ---- layer 1: every history up to full_depth, no deduplication
   std::vector<std::string> level{""};
